@@ -44,7 +44,7 @@ pub struct Trace {
   pub pending_timers_end: usize,
   pub quiescent: bool,
   pub status_flags: Vec<(bool, bool)>,
-  /// every duration asked from the timer function (ms), in order
+  /// every duration asked from the timer function (ticks), in order
   pub requested: Vec<u64>,
 }
 
